@@ -398,6 +398,55 @@ def override_of_inner_binding(ctx, i):
     ctx.case({"override": True, "equal": start == bound_before, "n": len(items), "r": runner_kind}, True)
 
 
+def bound_outside_selection(ctx, i):
+    """A value bound for a parameter that ALSO has a signature default, on a node outside the graph-level selection
+    (flat, or the graph used as a nested node): whenever that node runs it receives the very object that was bound -
+    never a copy of its signature default - and the bound object is what it mutates."""
+    from hypergraph import AsyncRunner, FunctionNode, Graph, SyncRunner
+
+    rng = ctx.rng
+    rt.reset_program()
+    fa, fp = "bsel/a", "bsel/log"
+    afn = rt.make_function("a", fa, [{"n": "x"}])
+    rt.KIND[fa] = "fn"
+    rt.BEH[fa] = lambda kw: ("a", kw["x"])
+    pfn = rt.make_function("log", fp, [{"n": "x"}, {"n": "sink", "d": ["dflt"]}])
+    rt.KIND[fp] = "fn"
+    rt.BEH[fp] = lambda kw: beh_mod.apply(["append_mut", "sink", "x"], kw)
+    bound = ["bound"]
+    g = Graph([FunctionNode(afn, name="a", output_name="y"), FunctionNode(pfn, name="log", output_name="logged")], name="bsel")
+    order = True  # select-first makes `sink` unbindable (no longer an input of the narrowed graph): legitimately rejected
+    g = g.bind(sink=bound).select("y")
+    nested = rng.random() < 0.5
+    top = Graph([g.as_node()], name="outer") if nested else g
+    runner_kind = rng.choice(["sync", "async"])
+    case = {"program": f"a(x)->y, log(x, sink=['dflt'])->logged; bind(sink=obj) + select('y') ({'bind first' if order else 'select first'}); nested={nested}", "runner": runner_kind}
+    import warnings
+
+    rec = rt.new_rec()
+    try:
+        with warnings.catch_warnings():
+            warnings.simplefilter("ignore")
+            if runner_kind == "sync":
+                SyncRunner().run(top, {"x": "run:x"})
+            else:
+                asyncio.run(AsyncRunner().run(top, {"x": "run:x"}))
+    except Exception as e:  # noqa: BLE001
+        ctx.violation("C18:run-failed", f"bound value outside the selection: raised {e!r}", case)
+        return
+    ctx.obs["runs_checked"] += 1
+    ctx.obs["bound_outside_selection_runs"] += 1
+    calls = [e for e in rec.ev if e[0] == "enter" and e[1] == fp]
+    for e in calls:
+        ctx.obs["identity_checked"] += 1
+        if e[2]["sink"] is not bound:
+            ctx.violation("C18:bound-value-copied", f"node outside the selection received {e[2]['sink']!r} (not the bound object {bound!r}): a copy of its signature default", case)
+            return
+    if calls and bound != ["bound"] + ["run:x"] * len(calls):
+        ctx.violation("C18:bound-value-copied", f"the node ran {len(calls)} time(s) but the bound object is {bound!r}", case)
+    ctx.case({"bsel": True, "nested": nested, "order": order, "ran": len(calls), "r": runner_kind}, True)
+
+
 def handler_object_reuse(ctx, i):
     """A multi-output interrupt (optionally emitting a signal) whose handler returns THE SAME dict object on every
     call: repeated runs must give equal results and the handler's object must stay as it was."""
@@ -451,6 +500,8 @@ def run(ctx):
             entry_variants(ctx, i)
         elif i % 24 == 4:
             handler_object_reuse(ctx, i)
+        elif i % 24 == 16:
+            bound_outside_selection(ctx, i)
         elif i % 3 == 2:
             concurrent_async(ctx, i)
         else:
